@@ -19,19 +19,19 @@ func (Engine) Name() string { return "syncsim" }
 func (Engine) Scenarios(property string) []string {
 	switch property {
 	case "C01":
-		return []string{"model", "disk"}
+		return []string{"model", "disk", "disk-remote", "model-outcomes"}
 	case "C02":
 		return []string{"model", "disk", "readonly"}
 	case "C03":
 		return []string{"model-untracked", "disk-untracked"}
 	case "C04":
-		return []string{"model", "disk"}
+		return []string{"model", "disk", "disk-remote", "model-outcomes"}
 	case "C05":
 		return []string{"model-outcomes", "model-outcomes-enum"}
 	case "C06":
 		return []string{"model", "model-untracked"}
 	case "C08":
-		return []string{"disk", "disk-untracked", "disk-edits"}
+		return []string{"disk", "disk-untracked", "disk-edits", "disk-remote"}
 	case "C11":
 		return []string{"model-halt", "disk-halt"}
 	case "C16":
@@ -42,6 +42,12 @@ func (Engine) Scenarios(property string) []string {
 		return []string{"model-exec"}
 	case "C29":
 		return []string{"lifecycle", "disk-lifecycle"}
+	case "C21":
+		return append(componentScenarios(property), "disk-remote")
+	case "C09":
+		return append(componentScenarios(property), "disk", "disk-remote")
+	case "C12":
+		return append(componentScenarios(property), "disk", "disk-edits")
 	}
 	return componentScenarios(property)
 }
@@ -50,7 +56,7 @@ func (Engine) Generate(property, scenario string, seed uint64, tier string) *sim
 	p := &simkit.Plan{Engine: "syncsim", Scenario: scenario, Property: property, Seed: seed, Cfg: map[string]int64{}}
 	r := simkit.NewRand(seed, 1)
 	switch scenario {
-	case "model", "model-untracked", "model-outcomes", "model-outcomes-enum", "model-halt", "model-exec", "lifecycle", "disk", "disk-untracked", "disk-halt", "disk-escape", "disk-lifecycle", "disk-edits":
+	case "model", "model-untracked", "model-outcomes", "model-outcomes-enum", "model-halt", "model-exec", "lifecycle", "disk", "disk-untracked", "disk-halt", "disk-escape", "disk-lifecycle", "disk-edits", "disk-remote":
 		genModel(p, r, tier)
 	case "links-scan", "links-mixed":
 		genLinks(p, r, tier)
@@ -64,7 +70,7 @@ func (Engine) Execute(t *testing.T, plan *simkit.Plan) *simkit.Result {
 	switch plan.Scenario {
 	case "model-outcomes-enum":
 		return execOutcomeEnumeration(t, plan)
-	case "model", "model-untracked", "model-outcomes", "model-halt", "model-exec", "lifecycle", "disk", "disk-untracked", "disk-halt", "disk-escape", "disk-lifecycle", "disk-edits", "links-scan", "links-mixed":
+	case "model", "model-untracked", "model-outcomes", "model-halt", "model-exec", "lifecycle", "disk", "disk-untracked", "disk-halt", "disk-escape", "disk-lifecycle", "disk-edits", "disk-remote", "links-scan", "links-mixed":
 		return execSession(t, plan)
 	}
 	if r := execComponent(t, plan); r != nil {
